@@ -238,7 +238,7 @@ func (s *Sim) execTL(ev *TLEvent) {
 		s.mon.onFault("tl:"+ev.Kind, ev.Host)
 	}
 	sv := s.mysql.servers[ev.Host]
-	if sv != nil {
+	if sv != nil && !strings.HasPrefix(ev.Kind, "cli_") {
 		sv.lastWorldChange = s.now()
 	}
 	switch ev.Kind {
